@@ -93,12 +93,8 @@ def gen_case(r, k, tier):
     kern = KERNELS[k % len(KERNELS)]
     mean = MEANS[(k // len(KERNELS)) % 3]
     err_kind = ERRS[(k + k // 21) % len(ERRS)]
-    if tier == "quick":     # vm_compute on exact rationals: cost grows like n^5 * (number of hyper-parameters)
-        n = [2, 3, 4, 3, 4, 3, 5, 4, 3, 4][k % 10]
-        d = r.choice([1, 1, 2, 2, 3]) if n <= 3 else r.choice([1, 1, 2])
-    else:
-        n = [2, 3, 4, 3, 4, 5, 6, 4, 3, 5][k % 10]
-        d = r.choice([1, 1, 2, 2, 3])
+    n = [2, 3, 4, 3, 5, 4, 6, 5, 3, 7][k % 10]
+    d = r.choice([1, 1, 2, 2, 3])
     if MX.kernel_has(kern, "CP") and n < 3:
         n = 3
     while True:
@@ -686,7 +682,7 @@ def run(rep: C.Report, tier: str) -> int:
             "coq-interval reflexive interval evaluator (score-value goals)",
             "Matrix/ListOps.v (executable matrix instance; inverse verified at run time)"],
         rule="configurations walk kernel (SE, RQ, SE+WN, RQ+WN, SE+RQ, CP(SE,SE), SE+SE+WN) x mean (3) x errors "
-             "(y_err, none, diagonal y_cov, full y_cov); n 2..5 (6 thorough), d 1..3; theta random, resampled until "
+             "(y_err, none, diagonal y_cov, full y_cov); n 2..7, d 1..3; theta random, resampled until "
              "cond(K_xx+S) <= 1e4; score-value goals on the first cases with n <= 4; optimiser runs: 6 (quick) / 8 "
              "seeded real runs (L-BFGS-B multistart with ML and LOO criteria, differential evolution); every case "
              "non-trivial; distinct = distinct configurations")
